@@ -357,7 +357,7 @@ pub fn v_array_copy_at(page: &mut [u8; PAGE_SIZE], off: usize, src: &[u8; I2E_RE
 //@|     // opens a new page finds that page free
 //@|     internal_id_u64 > 0 && internal_id_u64 % 512 == 0 ==> !old(pager).alloc(start.0 + internal_id_u64 / 512),
 //@| ensures frame_ok(*old(pager), *final(pager), i2e_own(start.0 as int, internal_id_u64 as int)),
-//@prewrite "page[offset..offset + I2E_RECORD_SIZE].copy_from_slice(&encoded);" => "v_array_copy_at(&mut page, offset, &encoded);"
+//@preregex "page\[offset\.\.offset \+ I2E_RECORD_SIZE\]\.copy_from_slice\(&(\w+)\);" => "v_array_copy_at(&mut page, offset, &\1);"
 //@end
 
 //@item nervusdb-storage/src/idmap.rs type InternalNodeId
